@@ -485,3 +485,73 @@ Proof.
   - unfold spec_centres. rewrite map_map. generalize (unmasked m). induction l; cbn; congruence.
   - exists k, 0, 0. intros. lra.
 Qed.
+
+(* ------------------------------------------------------------------ sub-pixel areas *)
+Lemma flat_map_const_repeat {A B} (c : B) (l : list A) : flat_map (fun _ => [c]) l = repeat c (length l).
+Proof. induction l; cbn; congruence. Qed.
+Lemma map_nth_seq {A} (d : A) l : map (fun i => nth i l d) (seq 0 (length l)) = l.
+Proof. pose proof (firstn_skipn_seq d l (length l) 0%nat) as H. cbn [skipn Nat.add] in H. rewrite <- H by lia. apply firstn_all. Qed.
+Lemma sumR_repeat c n : sumR (repeat c n) = INR n * c.
+Proof. induction n as [|n IH]; [cbn; lra|]. cbn [repeat sumR]. rewrite IH, S_INR. lra. Qed.
+
+Definition spec_areasR (ps : RR) (ss : list nat) : list R :=
+  flat_map (fun s => repeat (fst ps * snd ps / INR (s * s)) (s * s)) ss.
+
+Theorem areas_formula (ps : RR) ss : @sub_pixel_areas ROps ps ss = spec_areasR ps ss.
+Proof.
+  unfold sub_pixel_areas, spec_areasR. unfold for_range at 1.
+  rewrite (fold_left_ext _ (fun acc i => acc ++ (fun s => repeat (fst ps * snd ps / INR (s * s)) (s * s)) (nth i ss 0%nat))).
+  - rewrite (fold_left_append (fun i => (fun s => repeat (fst ps * snd ps / INR (s * s)) (s * s)) (nth i ss 0%nat))). cbn [app].
+    rewrite <- (flat_map_map (fun i => nth i ss 0%nat) (fun s => repeat (fst ps * snd ps / INR (s * s)) (s * s))), map_nth_seq. reflexivity.
+  - intros acc i _. cbn zeta. rewrite (for_range_append _ (fun _ => [_])), flat_map_const_repeat, seq_length, ofNat_R, Nat.pow_2_r.
+    reflexivity.
+Qed.
+
+Theorem areas_sum_to_unmasked_area (ps : RR) ss : subs_ok ss ->
+  sumR (@sub_pixel_areas ROps ps ss) = INR (length ss) * (fst ps * snd ps).
+Proof.
+  intros Hs. rewrite areas_formula. unfold spec_areasR. rewrite sumR_flat_map.
+  rewrite (sumR_map_ext _ (fun _ => fst ps * snd ps)).
+  - apply sumR_const.
+  - intros s Hin. unfold subs_ok in Hs. rewrite Forall_forall in Hs. specialize (Hs s Hin).
+    rewrite sumR_repeat. assert (INR (s * s) <> 0) by (apply not_0_INR; nia). field. auto.
+Qed.
+(* each pixel's own s^2 sub-areas sum to the pixel area *)
+Lemma areas_of_one_pixel (ps : RR) s : (1 <= s)%nat ->
+  sumR (repeat (fst ps * snd ps / INR (s * s)) (s * s)) = fst ps * snd ps.
+Proof. intros Hs. rewrite sumR_repeat. assert (INR (s * s) <> 0) by (apply not_0_INR; nia). field. auto. Qed.
+
+(* ------------------------------------------------------------------ index tables *)
+Definition slim_chunk (is : nat * nat) : list nat := repeat (fst is) (snd is * snd is).
+Definition native_chunk (q : nat * nat * nat) : list (nat * nat) :=
+  let '(y, x, s) := q in flat_map (fun a => map (fun b => (y * s + a, x * s + b)%nat) (seq 0 s)) (seq 0 s).
+
+Lemma flat_map_repeat_const {A B} (c : B) n (l : list A) : flat_map (fun _ => repeat c n) l = repeat c (length l * n).
+Proof. induction l; cbn; auto. rewrite repeat_app. congruence. Qed.
+Lemma map_const_repeat {A B} (c : B) (l : list A) : map (fun _ => c) l = repeat c (length l).
+Proof. induction l; cbn; congruence. Qed.
+
+Theorem slim_for_sub_slim_formula m ss : length ss = length (unmasked m) ->
+  slim_for_sub_slim m ss = spec_slim_for_sub ss.
+Proof.
+  intros Hl. unfold slim_for_sub_slim, spec_slim_for_sub. fold slim_chunk.
+  rewrite (pixel_loop_zip (fun _ _ index s acc => for_range s (fun _ acc => for_range s (fun _ acc => acc ++ [index]) acc) acc)) by exact Hl.
+  rewrite (fold_left_ext _ (fun acc (z : ipix * nat) => acc ++ slim_chunk (fst (fst z), snd z))).
+  - rewrite (fold_left_append (fun z : ipix * nat => slim_chunk (fst (fst z), snd z))).
+    cbn [app]. rewrite <- (flat_map_map (fun z : ipix * nat => (fst (fst z), snd z)) slim_chunk), zpixels_idx by exact Hl. reflexivity.
+  - intros acc z _. rewrite (for_range2_append _ (fun _ _ => fst (fst z))). f_equal. unfold slim_chunk. cbn [fst snd].
+    rewrite (flat_map_ext_in _ (fun _ => repeat (fst (fst z)) (snd z))).
+    + now rewrite flat_map_repeat_const, seq_length.
+    + intros a _. now rewrite map_const_repeat, seq_length.
+Qed.
+
+Theorem native_for_sub_slim_formula m ss : length ss = length (unmasked m) ->
+  native_for_sub_slim m ss = spec_native_for_sub m ss.
+Proof.
+  intros Hl. unfold native_for_sub_slim, spec_native_for_sub. fold native_chunk.
+  rewrite (pixel_loop_zip (fun y x _ s acc => for_range s (fun y1 acc => for_range s (fun x1 acc => acc ++ [((y * s) + y1, (x * s) + x1)%nat]) acc) acc)) by exact Hl.
+  rewrite (fold_left_ext _ (fun acc (z : ipix * nat) => acc ++ native_chunk (snd (fst z), snd z))).
+  - rewrite (fold_left_append (fun z : ipix * nat => native_chunk (snd (fst z), snd z))).
+    cbn [app]. rewrite <- (flat_map_map (fun z : ipix * nat => (snd (fst z), snd z)) native_chunk), zpixels_pix. reflexivity.
+  - intros acc [[i [y x]] s] _. cbn [fst snd]. rewrite for_range2_append. reflexivity.
+Qed.
